@@ -85,6 +85,22 @@ def run(ctx, ck) -> None:
         if looked_up:
             for k, v in entries.items():
                 branches.setdefault(k, v)
+    # name dispatch: getattr(self, f'<prefix>{self.method}<suffix>'[, default]) reaches the kernel named after the method
+    for n in ast.walk(get_func):
+        if isinstance(n, ast.Call) and isinstance(n.func, ast.Name) and n.func.id == 'getattr' and len(n.args) >= 2 and term(n.args[0]) == S and isinstance(n.args[1], ast.JoinedStr):
+            parts = n.args[1].values
+            pieces = []
+            for v in parts:
+                if isinstance(v, ast.Constant) and isinstance(v.value, str):
+                    pieces.append(v.value)
+                elif isinstance(v, ast.FormattedValue) and term(v.value) == ('attr', S, 'method') and v.conversion == -1 and v.format_spec is None:
+                    pieces.append(None)
+                else:
+                    pieces = []
+                    break
+            if pieces.count(None) == 1:
+                for m in methods:
+                    branches.setdefault(m, ''.join(m if x is None else x for x in pieces))
     live: dict[str, ast.FunctionDef] = {}
     for m in methods:
         target = branches.get(m)
